@@ -64,6 +64,31 @@ Section M.
     auto.
   Qed.
 
+  (** the set-up reads of the configuration only `renormalize >= 0`: not the output schedule *)
+  Lemma main_setup_guards : su_guards main_setup = [GRenorm0].
+  Proof. vm_compute. reflexivity. Qed.
+
+  Lemma main_setup_ignores_cadence sig ev c1 c2 (s : st) : renorm c1 = renorm c2 ->
+    sexec sig ev c1 main_setup s = sexec sig ev c2 main_setup s.
+  Proof.
+    intros Hr. apply (sexec_cfg K sig ev c1 c2 main_setup false main_setup_checked).
+    rewrite main_setup_guards. intros g s0 [<-|[]]. cbn. rewrite Hr. reflexivity.
+  Qed.
+
+  (** C12 for the whole program: two runs that differ in the output schedule only end the same
+      way; if they reach the end of main their dynamic parts agree *)
+  Lemma main_whole_program_cadence ev c1 c2 t (s : st) : shared c1 c2 ->
+    match full_run nosig ev c1 main_setup main_prog s, full_run nosig ev c2 main_setup main_prog s with
+    | Finished a, Finished b => dynx K t a = dynx K t b
+    | Early a, Early b | Crashed a, Crashed b => a = b
+    | _, _ => False
+    end.
+  Proof.
+    intros Hs. unfold full_run. rewrite (main_setup_ignores_cadence nosig ev c1 c2 s) by (destruct Hs as (_ & H & _); exact H).
+    destruct (sexec nosig ev c2 main_setup s) as [a|a|a]; [|exact eq_refl|exact eq_refl].
+    exact (cadence_independence_run K main_prog c1 c2 t main_cadence_checked Hs a a eq_refl).
+  Qed.
+
   Lemma main_no_use_after_free sig cf (s0 : st) : freed s0 = [] -> uaf s0 = false ->
     uaf (run sig cf main_prog s0) = false /\
     (forall o, In o (freed (run sig cf main_prog s0)) -> In o (frees (p_post main_prog))).
